@@ -20,8 +20,27 @@ def mkflow(ix, site, local_types=None, which=0, tab=None, env=None,
     fl.canon = canon
     fl.ix = ix
     fl.known = known_functions()
+    # numeric module-level constants that are new to the reviewed tree stand for their value
+    # (replacing a literal by a named constant changes nothing)
+    if fl.known is not None:
+        for st in f.module.tree.body:
+            if isinstance(st, ast.Assign) and len(st.targets) == 1 and isinstance(st.targets[0], ast.Name) and \
+                    _numeric_literal(st.value):
+                nm = st.targets[0].id
+                if '%s::=%s' % (f.module.relpath, nm) not in fl.known and nm not in fl.conv.env:
+                    fl.conv.env[nm] = Conv(fl.tab, {}, canon).expr(st.value)
     fl.run()
     return fl
+
+
+def _numeric_literal(n):
+    if isinstance(n, ast.Constant):
+        return isinstance(n.value, (int, float)) and not isinstance(n.value, bool)
+    if isinstance(n, ast.UnaryOp) and isinstance(n.op, (ast.USub, ast.UAdd)):
+        return _numeric_literal(n.operand)
+    if isinstance(n, ast.BinOp) and isinstance(n.op, (ast.Add, ast.Sub, ast.Mult, ast.Div, ast.Pow)):
+        return _numeric_literal(n.left) and _numeric_literal(n.right)
+    return False
 
 
 _KNOWN = []
@@ -423,3 +442,34 @@ def guard_is(fl, g, cond, positive=True):
     cg, fg = fl.tab.canon_cond(g.rf)
     cc, fc = fl.tab.canon_cond(cond)
     return fl.tab.equal(cg, cc) and ((g.positive != fg) == (positive != fc))
+
+
+def split_exits(fl, exits):
+    """Return events whose value is a selection guard(c, a, b) (a merged `a if c else b`, or the value of an inlined
+    helper with several returns) are split into one pseudo-exit per arm, guarded by c / not c, so that rules that
+    reason per exit see the same exits whether the dispatch is written as statements or hidden in a helper."""
+    import copy
+    from .flow import Guard
+    out = []
+
+    def rec(e, v, extra):
+        a = fl.tab.atoms[v.single_atom()] if isinstance(v, RF) and v.single_atom() is not None else None
+        if a is not None and a.head == 'guard' and isinstance(a.args[1], RF) and isinstance(a.args[2], RF):
+            rec(e, a.args[1], extra + [Guard(None, True, a.args[0], e.node)])
+            rec(e, a.args[2], extra + [Guard(None, False, a.args[0], e.node)])
+            return
+        if a is not None and a.head == 'const' and a.args == ('None',) and extra:
+            return          # the fall-through arm of a helper whose other paths raise
+        x = copy.copy(e)
+        x.value = v
+        x.guards = tuple(e.guards) + tuple(extra)
+        for g in extra:
+            g.test = None
+        x.split_from = e
+        out.append(x)
+    for e in exits:
+        if e.kind == 'return' and isinstance(e.value, RF):
+            rec(e, e.value, [])
+        else:
+            out.append(e)
+    return out
